@@ -1,10 +1,13 @@
 package props
 
 import (
+	"bytes"
 	"fmt"
 	"runtime"
 	"strings"
 	"sync"
+
+	"github.com/alttpo/snes/emulator"
 
 	"verif/internal/mem"
 	"verif/internal/ref"
@@ -250,7 +253,7 @@ func checkTraceLine(r *vf.Run, who string, line string, pre ref.State, img *mem.
 }
 
 func C14(r *vf.Run) {
-	r.Rule = "(a) twin runs: System.RunUntil with Logger=nil vs a recording io.Writer vs one that is also Reserver/Committer (and cpualt stepped with/without DisassembleCurrentPC interleaved) on the same image: final registers, AllCycles and memory must coincide; (b) every trace line parsed and checked against the pre-step state: bank:address, exactly the bytes of the instruction for the current widths (in-bank wrap), mnemonic, operand digits in conventional order, operand shape a function of the addressing mode and distinct between data addressing modes, rel8/rel16 destinations, A/X/Y at the width the instruction sees, eight flag letters. Workload: random instruction streams in native and emulation mode, every opcode x 4 width settings, every rel8 displacement forward and backward, instructions straddling a bank end. A cell is (interpreter, opcode, M, X, branch direction)"
+	r.Rule = "(a) twin runs: System.RunUntil with Logger=nil vs a recording io.Writer vs one that is also Reserver/Committer (and cpualt stepped with/without DisassembleCurrentPC interleaved) on the same image: final registers, AllCycles and memory must coincide, also for runs ending at reached targets with acting callbacks and pending interrupts, and on the emulator as CreateEmulator builds it with the program living in ROM, work RAM, its low mirror, cartridge RAM or the register window; (b) every trace line parsed and checked against the pre-step state: bank:address, exactly the bytes of the instruction for the current widths (in-bank wrap), mnemonic, operand digits in conventional order, operand shape a function of the addressing mode and distinct between data addressing modes, rel8/rel16 destinations, A/X/Y at the width the instruction sees, eight flag letters. Workload: random instruction streams in native and emulation mode, every opcode x 4 width settings, every rel8 displacement forward and backward, instructions straddling a bank end. A cell is (interpreter, opcode, M, X, branch direction)"
 	r.Assume = []string{"the leading cycles column (count of the previous step) is not judged", "BRK may be listed with one or two bytes"}
 	ncpu := runtime.NumCPU()
 	book := &shapeBook{byMode: map[string]map[string]bool{}}
@@ -571,11 +574,195 @@ func C14(r *vf.Run) {
 		book.mu.Unlock()
 		r.Eval(int64(len(seen)))
 	}
+	if r.Phase("real-system-twin") {
+		// the same question on the emulator as CreateEmulator builds it, with the program living in each
+		// kind of memory the console has: ROM, work RAM and its low mirror, cartridge RAM and the register
+		// window (whose device is not plain storage on a real console)
+		n := r.N(1920, 96000)
+		chunks := 16
+		r.Parallel(min(ncpu, 8), chunks, func(wi, ci int) {
+			g := r.Rand("realsys").Fork(uint64(ci))
+			cells := map[string]int64{}
+			defer r.MergeCells(cells)
+			var A, B *emulator.System
+			fresh := func() bool {
+				A, B = new(emulator.System), new(emulator.System)
+				fill := g.U64()
+				for _, s := range []*emulator.System{A, B} {
+					x := fill
+					for _, arr := range [][]byte{s.ROM[:0x200000], s.WRAM[:], s.SRAM[:]} {
+						for i := range arr {
+							x = x*6364136223846793005 + 1442695040888963407
+							arr[i] = byte(x >> 56)
+						}
+					}
+					if err := s.CreateEmulator(); err != nil {
+						r.Fail("create-emulator", err.Error(), nil)
+						return false
+					}
+				}
+				return true
+			}
+			if !fresh() {
+				return
+			}
+			for i := 0; i < n/chunks && !r.TooMany(); i++ {
+				var start uint32
+				where := ""
+				switch g.Intn(6) {
+				case 0:
+					start, where = uint32(g.Intn(0x40))<<16|uint32(0x8000+g.Intn(0x7F00)), "rom"
+				case 1:
+					start, where = 0x7E0000+uint32(g.Intn(0x1FF00)), "wram"
+				case 2:
+					start, where = uint32(g.Intn(0x40))<<16|uint32(g.Intn(0x1F00)), "wram-low-mirror"
+				case 3:
+					start, where = 0x700000+uint32(g.Intn(0x7F00)), "sram"
+				default:
+					// the register window: anywhere, and often right around the well-known registers
+					off := uint32(0x2000 + g.Intn(0x5F00))
+					if g.Bool() {
+						regs := []uint32{0x2100, 0x2137, 0x2140, 0x2180, 0x4016, 0x4200, 0x4210, 0x4211, 0x4212, 0x4218, 0x4300, 0x420B}
+						off = regs[g.Intn(len(regs))] - uint32(g.Intn(4))
+					}
+					start, where = uint32(g.Intn(0x40))<<16|off, "register-window"
+				}
+				// the program: random instructions, operand bytes with either top bit
+				var st ref.State
+				st = genState(g)
+				if g.Intn(3) == 0 {
+					st = genEmuState(g)
+				}
+				st.K, st.PC = byte(start>>16), uint16(start)
+				st.DBR = []byte{0x00, 0x7E, 0x7F, 0x80, 0x3F, 0x70}[g.Intn(6)]
+				st.D = uint16(g.Intn(0x1E00))
+				if !st.E {
+					st.S = uint16(0x0100 + g.Intn(0x1E00))
+				}
+				tmpImg := mem.New(g.U64())
+				genProgram(g, &st, tmpImg, 24+g.Intn(40))
+				plen := 24 + 40 + 3
+				prog := make([]byte, plen)
+				for j := range prog {
+					prog[j] = tmpImg.Peek(uint32(st.K)<<16 | uint32(st.PC+uint16(j)))
+				}
+				// most transfers of control would leave the mapped part of this console's map at once:
+				// keep one in four (a static walk with the start widths finds the instruction starts)
+				pw := st.P
+				if st.E {
+					pw |= 0x30
+				}
+				for j := 0; j < plen; {
+					op := prog[j]
+					switch ref.MnemNames[ref.Table[op].M] {
+					case "jmp", "jml", "jsr", "jsl", "rts", "rtl", "rti", "brk", "cop", "stp", "wai", "mvn", "mvp", "brl", "bra":
+						if g.Intn(4) != 0 {
+							prog[j] = 0xEA
+							op = 0xEA
+						}
+					}
+					l := ref.Len(op, pw)
+					if (op == 0xC2 || op == 0xE2) && j+1 < plen {
+						if op == 0xC2 {
+							pw &^= prog[j+1] & 0x30
+						} else {
+							pw |= prog[j+1] & 0x30
+						}
+						if st.E {
+							pw |= 0x30
+						}
+					}
+					j += l
+				}
+				target := start&0xFF0000 | uint32(uint16(start)+uint16(g.Intn(plen)))
+				if g.Intn(3) == 0 {
+					target = g.U32() & 0xFFFFFF
+				}
+				budget := uint64(20 + g.Intn(300))
+				loadSeed := g.U64()
+				run := func(s *emulator.System, logged bool) (pan interface{}, lines int) {
+					for j, b := range prog {
+						a := uint32(st.K)<<16 | uint32(st.PC+uint16(j))
+						if p := vf.Try(func() { s.Bus.EaWrite(a, b) }); p != nil {
+							return fmt.Sprint("program area not writable: ", p), 0
+						}
+					}
+					tmp := &cpuRig{bus: &s.Bus}
+					tmp.loadPrim(st, false, vf.NewRng(loadSeed))
+					s.CPU = tmp.prim
+					var cw *countWriter
+					s.Logger = nil
+					if logged {
+						cw = &countWriter{}
+						s.Logger = cw
+					}
+					pan = vf.Try(func() { s.RunUntil(target, budget) })
+					s.Logger = nil
+					if cw != nil {
+						lines = cw.writes
+					}
+					return
+				}
+				panB, _ := run(B, false)
+				panA, lines := run(A, true)
+				r.Eval(1)
+				det := func() interface{} {
+					return map[string]interface{}{"program_at": fmt.Sprintf("$%06x", start), "memory": where, "program": vf.Hex(prog), "start": st.String(), "target": fmt.Sprintf("$%06x", target), "budget": budget}
+				}
+				sa, sb := absPrim(&A.CPU), absPrim(&B.CPU)
+				bad := ""
+				switch {
+				case (panA != nil) != (panB != nil):
+					// a run that faults (PC or data in an unmapped area) faults with or without the tracer,
+					// though not necessarily at the same point: the tracer reads the next instruction first
+					cells[fmt.Sprintf("real:fault-on-one-side-only:logged=%v", panA != nil)]++
+					if ci == 0 {
+						r.Sample(map[string]interface{}{"one_sided_fault": fmt.Sprint(panA, " / ", panB), "case": det()})
+					}
+				case panA != nil:
+					cells["real:both-faulted"]++
+					if ci == 0 && cells["real:both-faulted"] < 12 {
+						r.Sample(map[string]interface{}{"fault": fmt.Sprint(panB), "case": det()})
+					}
+				case len(diffState(sa, sb)) > 0 || A.CPU.AllCycles != B.CPU.AllCycles:
+					bad = fmt.Sprintf("program in %s at $%06x: with Logger {%v} cycles=%d; without {%v} cycles=%d (differing %v)", where, start, sa, A.CPU.AllCycles, sb, B.CPU.AllCycles, diffState(sa, sb))
+				case !bytes.Equal(A.WRAM[:], B.WRAM[:]) || !bytes.Equal(A.SRAM[:], B.SRAM[:]) || !bytes.Equal(A.ROM[:0x200000], B.ROM[:0x200000]):
+					bad = fmt.Sprintf("program in %s at $%06x: ROM/WRAM/SRAM contents differ between the logged and the unlogged run", where, start)
+				default:
+					for a := uint32(0x2000); a < 0x8000; a++ {
+						if va, vb := A.Bus.EaRead(a), B.Bus.EaRead(a); va != vb {
+							bad = fmt.Sprintf("program in %s at $%06x: register window byte $%04x is %02x after the logged run, %02x after the unlogged run", where, start, a, va, vb)
+							break
+						}
+					}
+				}
+				if bad != "" {
+					r.Fail("logger-perturbs-execution:"+where, bad, det())
+					if !fresh() {
+						return
+					}
+					continue
+				}
+				if panA != nil || panB != nil {
+					// faulted runs leave the two systems in states that need not match: bring A back to B
+					copy(A.ROM[:0x200000], B.ROM[:0x200000])
+					copy(A.WRAM[:], B.WRAM[:])
+					copy(A.SRAM[:], B.SRAM[:])
+					for a := uint32(0x2000); a < 0x8000; a++ {
+						A.Bus.EaWrite(a, B.Bus.EaRead(a))
+					}
+					continue
+				}
+				_ = lines
+				cells["real:"+where]++
+			}
+		})
+	}
 	if r.OnlyPhase == "" {
 		for op := 0; op < 256; op++ {
 			r.Require(fmt.Sprintf("line:op%02x:e0:mx0%s", op, map[bool]string{true: ":backward", false: ""}[ref.Table[op].Mode == ref.Rel8]))
 		}
-		for _, c := range []string{"twin:writer", "twin:reserver", "twin:cpualt", "twin:ended-at-target-with-interrupt-pending", "twin:with-callbacks-or-interrupts", "line:opd0:e0:mx3:forward", "line:op80:e1:mx3:backward"} {
+		for _, c := range []string{"twin:writer", "twin:reserver", "twin:cpualt", "twin:ended-at-target-with-interrupt-pending", "twin:with-callbacks-or-interrupts", "real:rom", "real:wram", "real:wram-low-mirror", "real:sram", "real:register-window", "line:opd0:e0:mx3:forward", "line:op80:e1:mx3:backward"} {
 			r.Require(c)
 		}
 	}
